@@ -173,6 +173,9 @@ def run(chk: Check):
     for bi in range(n_base):
         sched = "rr" if bi % 2 == 0 else "rl"
         base = base_scn(rng, sched)
+        # verbosity only prints - also while a failure is being handled: half of the base scenarios (one per scheduler kind) are verbose
+        base.verbose = bi % 4 in (0, 1)
+        chk.count("verbose:" + str(base.verbose))
         # every second pair of base scenarios fails with a BaseException that is not an Exception (KeyboardInterrupt-like)
         base.fault_base = (bi // 2) % 2 == 1
         # ... and the Exception ones rotate through classes that protocols give a meaning to (StopIteration ends a for/map/list silently,
@@ -229,6 +232,10 @@ def run(chk: Check):
             if not raised:
                 if ch.canon_line(first) != ch.canon_line(free_lines[1]):
                     chk.fail("a run without any failure in its first call differs from the fault-free run", case)
+                # the failure fell into the second call (its first batch, after completed batches of an earlier call): that call propagates it
+                if len(lines) > 2 and lines[2].startswith("raise:") and lines[2].split(" ")[0] != f"raise:{kind}":
+                    chk.fail(f"the second calibrate() call raised {lines[2].split(' ')[0]} instead of propagating the {kind} exception injected into its first batch "
+                             f"(verbose={base.verbose}, {hist_fields(first)['b']} batches completed by the first call)", case)
             else:
                 if first.split(" ")[0] != f"raise:{kind}":
                     chk.fail(f"calibrate() raised {first.split(' ')[0]} instead of propagating the {kind} exception", case)
